@@ -295,7 +295,7 @@ func (p *progBuilder) addRandomOp(allowArrayOps bool) {
 	default:
 		if sj, ok := sameShape(); ok && allowArrayOps {
 			if p.r.Bool() {
-				p.add(fmt.Sprintf("scale %d %d %d", vi, sj, p.r.Range(2, 3)))
+				p.add(fmt.Sprintf("scale %d %d %d", vi, sj, p.r.Range(0, 3))) // 0 and 1 included: no shortcut may skip the store
 			} else {
 				p.add(fmt.Sprintf("addto %d %d", vi, sj))
 			}
